@@ -13,6 +13,15 @@ import sys
 
 import probe_rules as pr
 
+
+def reset_serial():
+    "Hook: restart the node-hash counter so that a tableau's tie-break order does not depend on earlier jobs in this process."
+    try:
+        from pytableaux.proof import common
+        common._verif_serial[0] = 0
+    except Exception:
+        pass
+
 FRAME = {'Reflexive', 'Transitive', 'Symmetric', 'Serial'}
 
 
@@ -202,6 +211,7 @@ def main():
             if job.get('models'):
                 opts['is_build_models'] = True
             opts.setdefault('build_timeout', int(job.get('timeout_ms', 4000)))
+            reset_serial()
             tab = Tableau(logic, arg, **opts)
             b0 = tab[0]
             trunk_nodes = [coq_node(n) for n in b0]
